@@ -317,6 +317,10 @@ def b_list(ex, state, args, kwargs, sv):
         o.items = []
         return state.alloc(o)
     a = args[0]
+    if isinstance(a, VListView):
+        # list(d[k]): a snapshot of the list stored in the table
+        o.items, o.elem, o.seq = None, a.elem, lv_seq(ex, state, a)
+        return state.alloc(o)
     if isinstance(a, VRef):
         src = ex.obj(state, a)
         if src.kind == "list":
@@ -335,8 +339,16 @@ def b_dict(ex, state, args, kwargs, sv):
     o.d = {}
     if args:
         a = args[0]
+        if isinstance(a, VUnion):
+            return ex.dist(state, [a], lambda x: b_dict(ex, state, [x], kwargs, sv))
         if isinstance(a, VRef) and ex.obj(state, a).kind == "dict" and ex.obj(state, a).d is not None:
             o.d.update(ex.obj(state, a).d)
+        elif isinstance(a, VRef) and ex.obj(state, a).kind == "dict" and ex.obj(state, a).sym is not None and not kwargs:
+            o.d = None
+            o.sym = dict(ex.obj(state, a).sym)      # dict(table): an independent copy
+            return state.alloc(o)
+        elif isinstance(a, VNoneT):
+            _type_error(ex, state)
         else:
             raise Unsupported("dict() of %r" % (a,))
     o.d.update(kwargs)
